@@ -1,6 +1,7 @@
 package analyzer
 
 import (
+	"errors"
 	"fmt"
 	"log"
 	"path/filepath"
@@ -111,6 +112,10 @@ func newGocritic() (*gocritic, error) {
 		// initialization and misses the checkers registered afterwards by
 		// checkers.InitEmbeddedRules (they have no params, hence no flags).
 		infoList: filterCheckersList(linter.GetCheckersInfo()),
+	}
+
+	if len(critic.infoList) == 0 {
+		return nil, errors.New("empty checkers set selected")
 	}
 
 	ver, err := linter.ParseGoVersion(flagGoVersion)
